@@ -233,8 +233,9 @@ def all_configs():
         out.append(mkcfg("/p", False, template, ".j2", target_raw="linkcur/../data", literal=True))
         for raw in RAW_FILES_NONNORMAL:
             # with a template engine the unchanged code opens os.path.abspath(file) (lexical), i.e. another file when a
-            # symbolic link is followed by "..": docs/findings/C04-loader-abspath.md; generated with C04_LOADER_ABSPATH=1
-            if template and not os.environ.get("C04_LOADER_ABSPATH"):
+            # symbolic link is followed by "..": known finding D27; those few cases are generated at the very end of the
+            # run (d27_cases) so that they cannot use up the slots for failing cases
+            if template:
                 continue
             out.append(mkcfg("/p", True, template, target_raw=raw, literal=True))
         out.append(mkcfg("/p", False, template, ".j2", target_raw="root"))
@@ -248,6 +249,27 @@ def prefixes(cfg):
     if cfg["key"]:
         return [rp.replace("...", "v"), rp.replace("...", "%2e%2e")]
     return ["" if rp == "/" else rp]
+
+
+def link_then_dotdot(path):
+    """does the configured path have a component that is a symbolic link, followed (later) by a ".." component?"""
+    parts = path.split("/")
+    for i in range(1, len(parts)):
+        prefix = "/".join(parts[:i]) or "/"
+        if ".." in parts[i:] and os.path.islink(os.path.join(fileh.base_dir(), prefix)):
+            return True
+    return False
+
+
+def d27_cases():
+    """known finding D27: file mode + template + configured `file` with a symbolic link followed by '..'"""
+    for raw in RAW_FILES_NONNORMAL:
+        cfg = mkcfg("/p", True, True, target_raw=raw, literal=True)
+        for tftp, uri in ((False, "/p"), (True, "/p"), (True, "p"), (False, "/p?x"), (False, "/p/")):
+            yield {"tftp": tftp, "cfg": cfg, "uri": uri}
+
+
+D27_CLAUSES = {"confined", "file_mode_single_file", "serves_the_named_file", "not_regular_is_not_found"}
 
 
 class C04(Check):
@@ -499,6 +521,9 @@ class C04(Check):
                         seen.add(u)
                         yield {"tftp": tftp, "cfg": cfg, "uri": u}
 
+        for c in d27_cases():
+            yield c
+
     # ---- implementation
     def impl(self, c):
         cfg, tftp, uri = c["cfg"], c["tftp"], c["uri"]
@@ -588,6 +613,25 @@ class C04(Check):
             rp = os.path.realpath(p)
             res.append(next((w for w in reversed(wanted) if os.path.realpath(w) == rp), p))   # the named file is last
         return res
+
+    def match_known(self, entry, case, failed):
+        """D27 only: file mode, template engine, configured `file` with a symbolic link followed by "..", the clauses
+        of that family - and the model of the current code (loader opens the lexically normalised name) must
+        reproduce the observation exactly; anything else stays a violation"""
+        if entry.get("id") != "D27" or "hist" in case or case.get("via_server"):
+            return False
+        cfg = case["cfg"]
+        if not (cfg["filemode"] and cfg["template"] and cfg.get("target_literal") and cfg.get("target_raw")
+                and link_then_dotdot(fileh.target_configured(cfg) if cfg["target_raw"].startswith("$BASE")
+                                     else cfg["target_raw"])):
+            return False
+        if not failed or not set(failed) <= D27_CLAUSES:
+            return False
+        try:
+            (c, o, m, fm, fi, rest), = self.evaluate([case])
+        except Exception:                # noqa
+            return False
+        return bool(fi) and set(fi) <= D27_CLAUSES and self.canon(o) == m
 
     def model_should_hold(self, c):
         # cases outside the hypotheses of C04_holds (root not lexically normalised) are judged on the implementation only
